@@ -76,6 +76,10 @@ pub struct Case {
     pub ops: Vec<Op>,
     /// the history is repeated on the file cut at idx(cut, file length - 1)
     pub cut: Option<u16>,
+    /// position of the FASTA stream at the moment it is handed to the constructor: idx(f, file length)
+    /// (a caller that sniffed or scanned the file first); every fetch seeks absolutely, so it is irrelevant
+    #[serde(default)]
+    pub start_pos: Option<u16>,
 }
 
 const ALPH: &[u8] = b"ACGTNRYKMSWBDHVacgtn";
@@ -256,9 +260,10 @@ impl<'a> Run<'a> {
             i,
             self.c.ops[i],
             layout_text(self.c, self.b),
-            match self.cut {
-                Some(k) => format!(" FILE CUT at offset {}", k),
-                None => String::new(),
+            match (self.cut, self.c.start_pos) {
+                (Some(k), _) => format!(" FILE CUT at offset {}", k),
+                (None, Some(f)) => format!(" [stream handed to the constructor at position idx({}, file length)]", f),
+                (None, None) => String::new(),
             }
         )
     }
@@ -306,7 +311,11 @@ impl<'a> Run<'a> {
             None => b.file.clone(),
         });
         let sched: Vec<u32> = c.sched.iter().map(|&s| s.max(1)).collect();
-        let src = ChunkedReader::whole(data.clone(), &sched, Some(self.log.clone()));
+        let mut src = ChunkedReader::whole(data.clone(), &sched, Some(self.log.clone()));
+        if let Some(f) = c.start_pos {
+            use std::io::{Seek, SeekFrom};
+            let _ = src.seek(SeekFrom::Start(idx(f, data.len()) as u64));
+        }
         let fai_src = ChunkedReader::whole(Rc::new(b.fai.clone()), &sched, None);
         let mut rd = if c.via_index {
             match Index::new(fai_src) {
@@ -712,6 +721,8 @@ pub fn check(c: &Case) -> R {
     pass.add_if(seen.cut_before_ok, "cut file: interval before the cut read correctly");
     pass.add_if(seen.cut_failure_compared, "cut file: failed read compared with a fresh reader");
     pass.add_if(seen.fetch_next, "sequential scan: fetch starting where the last interval ended / began");
+    pass.add_if(c.start_pos.is_some() && c.via_index, "stream not at offset 0 when handed to with_index");
+    pass.add_if(c.start_pos.is_some() && !c.via_index, "stream not at offset 0 when handed to new");
     pass.add_if(c.recs.iter().any(|r| r.width == 1), "line width 1");
     pass.add_if(c.recs.iter().any(|r| r.len > 0 && r.len % r.width == 0), "length multiple of line width");
     pass.add_if(c.recs.iter().any(|r| r.len <= r.width), "single-line record");
@@ -812,8 +823,9 @@ pub fn strat(_t: Tier) -> BoxedStrategy<Case> {
         any::<bool>(),
         ops_strat(),
         proptest::option::weighted(0.85, any::<u16>()),
+        proptest::option::weighted(0.3, prop_oneof![1 => Just(u16::MAX), 1 => Just(1u16), 3 => any::<u16>()]),
     )
-        .prop_map(|(recs, (crlf, final_newline, fai_crlf, fai_final_newline, samtools_single), sched, via_index, ops, cut)| Case {
+        .prop_map(|(recs, (crlf, final_newline, fai_crlf, fai_final_newline, samtools_single), sched, via_index, ops, cut, start_pos)| Case {
             recs,
             crlf,
             final_newline,
@@ -824,6 +836,7 @@ pub fn strat(_t: Tier) -> BoxedStrategy<Case> {
             via_index,
             ops,
             cut,
+            start_pos,
         })
         .boxed()
 }
